@@ -1503,7 +1503,10 @@ class Module(ModuleBase):
           # create NonTransparent Modules
           self._compact_name_scope_modules = {
             name: CompactNameScope(
-              getattr(type(self), name).inner_fun, lambda: self, name=name
+              getattr(type(self), name).inner_fun,
+              lambda: self,
+              name=name,
+              parent=self,
             )
             for name in self._compact_name_scope_methods
           }
